@@ -449,6 +449,15 @@ Definition check_parsed (rs : bool) (p : parsed) (now : pnow) : result validated
   Ok (year, month, day, dflt vh, dflt (p_minute p), dflt (p_second p), dflt (p_micro p), p_tz p))))).
 
 (* ------------------------------------------------------------------ Formatter.parse *)
+(* what happens after the pattern matched: re.sub hands every match to _get_parsed_values, then _check_parsed *)
+Definition parse_finish (rs : bool) (zones : list str) (loc : locale_data) (names : list str) (ms : list caps) (now : pnow) : result validated :=
+  bind (fold_matches zones loc names ms parsed0) (fun p => check_parsed rs p now).
+
+(* the assembled pattern of a format in a locale: group names in order and the regex *)
+Definition parse_pattern (loc : locale_data) (fmt : str) : result (list str * re) :=
+  let escaped := re_escape fmt in
+  bind (assemble loc (ff_tokenize (S (length escaped)) [] escaped)) (fun els => Ok (group_names els, pattern_re els)).
+
 Definition parse (rs : bool) (zones : list str) (lname : str) (now : pnow) (time fmt : str) : result validated :=
   let escaped := re_escape fmt in
   let pieces := ff_tokenize (S (length escaped)) [] escaped in
@@ -466,6 +475,6 @@ Definition parse (rs : bool) (zones : list str) (lname : str) (now : pnow) (time
           else
             match sub_matches (S (length time)) r time with
             | None => Unsupported
-            | Some ms => bind (fold_matches zones loc names ms parsed0) (fun p => check_parsed rs p now)
+            | Some ms => parse_finish rs zones loc names ms now
             end)
     end.
